@@ -228,7 +228,9 @@ func (k *kase) minimise() map[string]interface{} {
 		}
 		return types.NewValidatorSet(vs)
 	}
-	// fails returns the smallest (s+j, s, j) witness for the candidate
+	// fails returns the smallest (s+j, s, j) witness for the candidate; strong = the proposers
+	// differ (not only the accums).
+	strong := true
 	fails := func(cd cand) (bool, int, int) {
 		if len(cd.idx) < 2 {
 			return false, 0, 0
@@ -246,7 +248,8 @@ func (k *kase) minimise() map[string]interface{} {
 				for i := 0; i < j; i++ {
 					b.IncrementAccum(1)
 				}
-				if diff(snapOf(a), snapOf(b)) != "" {
+				sa, sb := snapOf(a), snapOf(b)
+				if (strong && sa.Prop != sb.Prop) || (!strong && diff(sa, sb) != "") {
 					return true, s, j
 				}
 			}
@@ -259,9 +262,12 @@ func (k *kase) minimise() map[string]interface{} {
 		cur.power = append(cur.power, v.VotingPower)
 	}
 	if ok, _, _ := fails(cur); !ok {
-		return nil
+		strong = false
+		if ok, _, _ := fails(cur); !ok {
+			return nil
+		}
 	}
-	budget := 400
+	budget := 600
 	for changed := true; changed && budget > 0; {
 		changed = false
 		// drop validators
@@ -275,7 +281,7 @@ func (k *kase) minimise() map[string]interface{} {
 		}
 		// shrink powers
 		for i := 0; i < len(cur.idx) && budget > 0; i++ {
-			for _, np := range []int64{1, cur.power[i] / 2, cur.power[i] - 1} {
+			for _, np := range []int64{1, 2, 3, cur.power[i] / 1024, cur.power[i] / 2, cur.power[i] - 1} {
 				if np < 1 || np >= cur.power[i] {
 					continue
 				}
